@@ -431,9 +431,11 @@ fn min_rank(p: &Projector, inds: &[RawInd]) -> i64 {
     inds.iter().filter_map(|i| i.obj.map(|b| p.rank(Some(b)))).min().unwrap_or(NOOBJ)
 }
 
-/// replaces every {"$obj": "<bits>"} / {"$obj": "none"} by the rank of that objective value
-fn subst_ranks(p: &Projector, v: &Value) -> Value {
+/// replaces every {"$obj": "<bits>"} / {"$obj": "none"} by the rank of that objective value and every
+/// {"$tag": "<solution>"} by the tag of that solution
+fn subst_ranks(p: &mut Projector, v: &Value) -> Value {
     match v {
+        Value::Object(m) if m.len() == 1 && m.contains_key("$tag") => json!(p.tag(m["$tag"].as_str().unwrap_or(""))),
         Value::Object(m) if m.len() == 1 && m.contains_key("$obj") => match m["$obj"].as_str() {
             Some("none") | None => json!(NOOBJ),
             Some(bits) => json!(p.rank(Some(bits.parse::<u64>().unwrap()))),
@@ -491,7 +493,7 @@ pub fn emit_run(out: &mut Out, run: u64, header: &Value, o: &RunOutcome, values:
             "minseen": minseen,
             "sd": s.scope_depth,
             "xk": header["xk"],
-            "x": subst_ranks(&p, &s.extra),
+            "x": subst_ranks(&mut p, &s.extra),
         });
         out.emit(&rec);
     }
@@ -798,6 +800,38 @@ where
             cond(),
         ),
         "real_sa" => sa::real_sa(sa::RealProblemParameters { t_0: f(p, "t_0"), alpha: f(p, "alpha"), deviation: f(p, "deviation") }, cond()),
+        // C17: an SA whose candidates are refined by a short SA of its own before they are judged -- the generic `sa`
+        // template used as the `constraints` step of the `sa` template, in a scope of its own (its own temperature,
+        // iteration counter and cooling schedule: `inner`)
+        "real_sa|nested" => {
+            use mahf::{components::{boundary, initialization, mapping, replacement}, identifier::Global, lens::ValueOf};
+            let cooling = |alpha: f64| mapping::sa::GeometricCooling::new(alpha, ValueOf::<replacement::sa::Temperature>::new());
+            let q = &p["inner"];
+            let inner = sa::sa::<P, Global>(
+                sa::Parameters {
+                    t_0: f(q, "t_0"),
+                    generation: mutation::NormalMutation::new_dev(f(q, "deviation")),
+                    cooling_schedule: cooling(f(q, "alpha"))?,
+                    constraints: boundary::Saturation::new(),
+                },
+                LessThanN::iterations(u(q, "n")),
+            );
+            let refine = Configuration::builder().do_(boundary::Saturation::new()).evaluate().scope_(|b| b.do_(inner)).build_component();
+            Ok(Configuration::builder()
+                .do_(initialization::RandomSpread::new(1))
+                .evaluate()
+                .update_best_individual()
+                .do_(sa::sa::<P, Global>(
+                    sa::Parameters {
+                        t_0: f(p, "t_0"),
+                        generation: mutation::NormalMutation::new_dev(f(p, "deviation")),
+                        cooling_schedule: cooling(f(p, "alpha"))?,
+                        constraints: refine,
+                    },
+                    cond(),
+                ))
+                .build())
+        }
         "real_ls" => ls::real_ls(ls::RealProblemParameters { n_neighbors: u(p, "n_neighbors"), deviation: f(p, "deviation") }, cond()),
         "real_ils" => ils::real_ils(
             ils::RealProblemParameters {
